@@ -59,7 +59,11 @@ where
 
     let rust_name = xml_name_to_rust_name(xml_name);
     if let Some(segment) = rust_type.to_string().split(':').next_back() {
-        if segment == rust_name {
+        // a type of the same name in *another* namespace's module is a different type
+        let own_module = target_namespace.as_ref().map(|ns| ns.rust_mod_name.as_str());
+        let in_other_module = matches!(rust_type, RustFieldType::Other(other)
+            if other.module.is_some() && other.module.as_deref() != own_module);
+        if segment == rust_name && !in_other_module {
             // NOOP
             return Ok(());
         }
